@@ -288,6 +288,48 @@ def check_store(model, rep, sx: SX, tables):
     rep.require('C19.store', 5)
 
 
+def check_minimum_teeth(model, rep, R='C19.params'):
+    """`n_teeth < MINIMUM_TEETH_NUMBER` rejects fewer teeth than the tabulated minimum only if the constant IS the first
+    (smallest) tabulated teeth number - a value of the 'Number of teeth' column, not a row label"""
+    mod = None
+    for m_, consts in model.module_consts.items():
+        if 'MINIMUM_TEETH_NUMBER' in consts:
+            mod = m_
+    cons = 'MINIMUM_TEETH_NUMBER'
+    if mod is None:
+        rep.cannot(R, cons, 'constant not found')
+        return
+    consts = model.module_consts[mod]
+    node = consts['MINIMUM_TEETH_NUMBER']
+
+    def expand(n, depth=0):
+        if isinstance(n, ast.Name) and n.id in consts and depth < 4 and n.id.isupper() and not isinstance(consts[n.id], ast.Constant):
+            return expand(consts[n.id], depth + 1)
+        return n
+    text = ast.unparse(node)
+    full = text
+    for x in ast.walk(node):
+        if isinstance(x, ast.Name) and x.id in consts and x.id.isupper():
+            full += ' ' + ast.unparse(expand(x))
+    outer = node
+    verdict, why = None, ''
+    if isinstance(outer, ast.Call) and isinstance(outer.func, ast.Attribute) and outer.func.attr in ('idxmin', 'idxmax', 'argmin', 'argmax'):
+        verdict, why = False, f'`{text[:60]}` is the LABEL/position of the extreme row, not a teeth number (with the default index: 0)'
+    elif 'Number of teeth' not in full:
+        verdict, why = False, f'`{text[:60]}` is not taken from the teeth-number column of the Lewis table'
+    elif isinstance(outer, ast.Call) and ((isinstance(outer.func, ast.Attribute) and outer.func.attr == 'min') or
+                                          (isinstance(outer.func, ast.Name) and outer.func.id in ('min', 'int', 'float'))):
+        verdict = True
+    elif isinstance(outer, ast.Subscript):
+        sl = ast.unparse(outer.slice)
+        first = any(k in sl for k in ('index[0]', '.index[0]')) or sl.split(',')[0].strip() in ('0',) or sl.strip() == '0'
+        verdict = True if first else None
+    if verdict is None:
+        rep.cannot(R, cons, f'`{text[:80]}`: not recognised as the first/smallest value of the teeth-number column')
+    else:
+        rep.decide(verdict, R, cons, why, loc=f'{mod}:{getattr(node, "lineno", 0)}', detail='first row of the teeth-number column (rows ascending: C09.lewis-table)')
+
+
 def check_boundaries(model, rep, sx: SX, R='C19.boundary', only=None):
     """the rejection that enforces a documented threshold is exactly its complement: the ValueError path whose last
     test is about the same difference as the requirement must imply that the requirement is false (a `<=` where `<`
@@ -408,5 +450,6 @@ def check(model, rep):
     sx3.inline_ctor_guards = True     # a constructor call on the path contributes its sign check
     check_store(model, rep, sx3, tables)
     check_params(model, rep, sx)
+    check_minimum_teeth(model, rep)
     check_boundaries(model, rep, sx)
     rep.assume('unit factors are positive (C05.table)')
